@@ -323,4 +323,51 @@ theorem parseFloat_fmtFixed' (w p : Nat) (x : Rat) (hp : 0 < p) :
       simpa using e2
     rw [this]
 
+
+/-- the same with the space flag (`{x: 20.12f}`): a blank takes the place of the sign and is stripped by `float()` -/
+theorem parseFloat_fmtFixed_space (w p : Nat) (x : Rat) (hp : 0 < p) :
+    parseFloat (fmtFixed 1 w p x) = some (((roundHalfEven (x * (10 : Rat) ^ p) : Int) : Rat) / (10 : Rat) ^ p) := by
+  rw [← parseFloat_fmtFixed' w p x hp]
+  unfold parseFloat
+  congr 1
+  -- both strip to the same core
+  have hp' : ¬ p = 0 := by omega
+  by_cases hneg : (fixedParts p x).1 = true
+  · unfold fmtFixed
+    simp only [hneg, if_true]
+  · have hneg' : (fixedParts p x).1 = false := by simpa using hneg
+    unfold fmtFixed
+    simp only [hneg', Bool.false_eq_true, if_false, if_true, show ¬ (0 : Nat) = 1 by decide, hp', List.nil_append]
+    set body := natStr (fixedParts p x).2.1 ++ 46 :: zeroPad p (natStr (fixedParts p x).2.2) with hb
+    have hfp : (fixedParts p x).2.2 < 10 ^ p := by
+      simp only [fixedParts]; exact Nat.mod_lt _ (Nat.pow_pos (by decide))
+    obtain ⟨z1, z2, _⟩ := zeroPad_spec p _ hfp hp
+    have hipne : natStr (fixedParts p x).2.1 ≠ [] := List.ne_nil_of_length_pos (natStr_length_pos _)
+    have hbne : body ≠ [] := by rw [hb]; simp
+    have hhead : body.head?.all (fun c => !pyIsSpace c) = true := by
+      obtain ⟨c, rest, hcr⟩ := List.exists_cons_of_ne_nil hipne
+      have hcd : isDigitA c = true := by
+        have := natStr_digits (fixedParts p x).2.1
+        rw [hcr] at this; simp only [List.all_cons, Bool.and_eq_true] at this; exact this.1
+      rw [hb, hcr]; simp [digit_not_space' c hcd]
+    have hlast : body.getLast?.all (fun c => !pyIsSpace c) = true := by
+      have hzne : zeroPad p (natStr (fixedParts p x).2.2) ≠ [] := by
+        apply List.ne_nil_of_length_pos; rw [z1]; exact hp
+      have : body.getLast? = (zeroPad p (natStr (fixedParts p x).2.2)).getLast? := by
+        rw [hb, List.getLast?_append, List.getLast?_cons_of_ne_nil hzne]
+        cases h : (zeroPad p (natStr (fixedParts p x).2.2)).getLast? with
+        | none => exact absurd (List.getLast?_eq_none_iff.mp h) hzne
+        | some c => simp
+      rw [this]
+      cases h : (zeroPad p (natStr (fixedParts p x).2.2)).getLast? with
+      | none => simp
+      | some c =>
+        have hc : c ∈ zeroPad p (natStr (fixedParts p x).2.2) := List.mem_of_getLast? h
+        simp [digit_not_space' c ((List.all_eq_true.mp z2) c hc)]
+    rw [strip_padLeft w body hbne hhead hlast]
+    unfold padLeft
+    have := ChmpyVerif.Element.strip_pad body (List.replicate (w - ([32] ++ body).length) 32 ++ [32]) []
+      (by simp [pyIsSpace]) rfl hbne hhead hlast
+    simpa using this
+
 end ChmpyVerif.MolIO
